@@ -220,6 +220,17 @@ class Dict(Sort):
         return f"Dict[Str,{self.val}]"
 
 
+class LDictSort(Sort):
+    """dict[str, list[Ballot]]"""
+
+    def __repr__(self):
+        return "LDict"
+
+
+LDict = LDictSort()
+LMapS = z3.ArraySort(PyStr, SeqBallot)
+
+
 class BDictSort(Sort):
     """dict[Ballot, Fraction] (insertion ordered; lookup through Ballot.__hash__/__eq__), or -- kelem = "strseq" -- dict[tuple[str, ...], int]
     (lookup by structural equality of the key tuples)"""
@@ -318,6 +329,13 @@ class VDict(V):
         self.keys, self.vals, self.val, self.order = keys, vals, val, order
 
 
+class VLDict(V):
+    """dict[str, list[Ballot]]: key set + map from names to ballot sequences"""
+
+    def __init__(self, keys, vals):
+        self.keys, self.vals = keys, vals
+
+
 class VBDict(V):
     """dict keyed by Ballot: insertion-ordered key sequence + aligned value sequence (S-DICT)"""
 
@@ -411,6 +429,8 @@ def fresh(sort: Sort, name: str) -> V:
         return VOpt(z3.Bool(n + "_isnone"), fresh(sort.inner, name))
     if isinstance(sort, Dict):
         return VDict(z3.Const(n + "_keys", CSetS), z3.Const(n + "_vals", RMapS), sort.val)
+    if isinstance(sort, LDictSort):
+        return VLDict(z3.Const(n + "_lkeys", CSetS), z3.Const(n + "_lvals", LMapS))
     if isinstance(sort, BDictSort):
         return VBDict(z3.Const(n + "_bkeys", SeqBallot if sort.kelem == "ballot" else SeqSeqStr), z3.Const(n + "_bvals", z3.SeqSort(z3.RealSort())), sort.kelem)
     if isinstance(sort, TBDict):
@@ -463,6 +483,8 @@ def sort_of(v: V) -> Sort:
         return Opt(sort_of(v.val))
     if isinstance(v, VDict):
         return Dict(v.val)
+    if isinstance(v, VLDict):
+        return LDict
     if isinstance(v, VBDict):
         return BDict if v.kelem == "ballot" else SDict
     if isinstance(v, VTBDict):
